@@ -39,11 +39,6 @@ structure Good (P : ProtoParams) (s : Io) (S : Bytes) (fs : List Frame) : Prop w
   stage  : s.i.staging.length ≤ P.stage
   stream : ∃ tail, S = Frame.enc fs ++ tail ∧ (s.dead = false → tail = s.i.inb.data ++ s.i.staging)
 
-theorem enc_append (a b : List Frame) : Frame.enc (a ++ b) = Frame.enc a ++ Frame.enc b := by
-  simp [Frame.enc]
-
-theorem enc_single (f : Frame) : Frame.enc [f] = f.bytes := by simp [Frame.enc]
-
 /-- devIterate keeps the invariant; the delivered frame (if any) is the next frame of the stream -/
 theorem devIterate_good (P : ProtoParams) (hP : P.WF) (hm : P.bufMin < P.bufMax) (sc : Bytes)
     (s : Io) (S : Bytes) (fs : List Frame) (hd : s.dead = false) (hg : Good P s S fs) :
@@ -168,33 +163,6 @@ theorem run_good (P : ProtoParams) (hP : P.WF) (hm : P.bufMin < P.bufMax) (al : 
 theorem init_good (P : ProtoParams) (hb : 0 < P.bufMax) (o : IoOut) :
     Good P { i := {}, o := o, dead := false } [] [] :=
   ⟨by simp, AccBuf.Inv.init P hb, by simp, [], by simp [Frame.enc], by simp⟩
-
-/-- the greedy frame list of `enc fs ++ tail` starts with `fs` -/
-theorem goodFramesFuel_enc (P : ProtoParams) (hP : P.WF) (fs : List Frame) (hv : ∀ f ∈ fs, f.Valid P)
-    (tail : Bytes) (n : Nat) (hn : fs.length ≤ n) :
-    goodFramesFuel P n (Frame.enc fs ++ tail) = fs ++ goodFramesFuel P (n - fs.length) tail := by
-  induction fs generalizing n with
-  | nil => simp [Frame.enc]
-  | cons f fs ih =>
-    cases n with
-    | zero => simp at hn
-    | succ n =>
-      have henc : Frame.enc (f :: fs) ++ tail = f.bytes ++ (Frame.enc fs ++ tail) := by
-        simp [Frame.enc]
-      rw [henc]
-      simp only [goodFramesFuel]
-      rw [parseHead_complete P hP f (hv f (by simp)) _]
-      simp only
-      rw [ih (fun g hg => hv g (by simp [hg])) n (by simpa using hn)]
-      simp
-
-theorem enc_length_ge (fs : List Frame) : fs.length ≤ (Frame.enc fs).length := by
-  induction fs with
-  | nil => simp [Frame.enc]
-  | cons f fs ih =>
-    have : Frame.enc (f :: fs) = f.bytes ++ Frame.enc fs := by simp [Frame.enc]
-    rw [this, List.length_append, Frame.bytes_length]
-    simp only [List.length_cons]; omega
 
 /-! ## The property theorems -/
 
